@@ -1,5 +1,6 @@
 """property id -> harness modules (each exposes cases(tier) -> [Case])"""
 REGISTRY = {
+    "C05": {"modules": ["harness.C05_vocab"], "uncovered": ["excluded_token_regex (regular expressions on symbolic strings are outside the encoding)", "second-stage n-gram pruning in NgramVectorizer / NgramCooccurrenceVectorizer (same prune_token_dictionary code, exercised through cls_ngram min_occ cases)", "totals above the IEEE bound, counts >= 2**24"]},
     "C01": {"modules": ["harness.C01_shape"], "uncovered": ["Histogram (covered under C20), KDE, Distribution (sklearn objects)", "Wasserstein family"]},
     "C02": {"modules": ["harness.C02_fit_transform"], "uncovered": []},
     "C12": {"modules": ["harness.C12_rows"], "uncovered": ["KDE, Distribution", "Sinkhorn batch coupling (numerical tolerance of a shared stopping test)"]},
